@@ -210,7 +210,8 @@ def run(chk: common.Check):
         rule=("obligations = theorems of coq/props/C07.v (parser model: all files, all states; inventory of every read of numb/occ/beta in "
               "propka/*.py). Correspondence: parser on edited small inputs and mutations. Search: junk records, ignorable residues (HETATM/ATOM "
               "tagged, at chain starts), rewritten serial/occupancy/B/element/charge columns, re-inserted hydrogens, under default / "
-              "--protonate-all / --keep-protons; protonate-all vs default; keep-protons round trip. distinct = (structure, edit, mode)"),
+              "--protonate-all / --keep-protons; protonate-all vs default; keep-protons round trip. distinct = (structure, edit, mode)"
+              " Added in rounds 5-6: END records inside the file, ignorable residues with chain identifiers of their own between residues, SSBOND / LINK / CISPEP records."),
         assumptions=["serial fields stay valid hybrid-36 (otherwise ValueError, as the theorem states)",
                      "hydrogen records arrive in a harmless parser state (hwf; evaluated by the model on the inputs used)",
                      "protonate-all and the keep-protons round trip are decided by the end-to-end search only (partial)"],
